@@ -69,7 +69,9 @@ type hreq struct {
 	chunked        bool
 }
 
-func (r hreq) wire() string { return httpReq(r.method, r.target, "backend.example", r.headers, r.body, r.chunked) }
+func (r hreq) wire() string {
+	return httpReq(r.method, r.target, "backend.example", r.headers, r.body, r.chunked)
+}
 
 func (r hreq) String() string {
 	return fmt.Sprintf("%s %s hdrs=%d body=%d chunked=%v", r.method, r.target, len(r.headers), len(r.body), r.chunked)
